@@ -102,7 +102,7 @@ BOUNDS = [0, 1, 127, 128, 129, 16383, 16384, 16385, 2097151, 2097152, 2097153, 2
 @register
 class C15(Base):
     id = 'C15'
-    ops = ['vi_len', 'vi_total', 'vi_hlen', 'vi_rlen', 'vi_try', 'vi_write', 'vi_read', 'vi_poll', 'vi_range', 'sched', 'dec', 'big']
+    ops = ['vi_len', 'vi_total', 'vi_hlen', 'vi_rlen', 'vi_try', 'vi_write', 'vi_read', 'vi_poll', 'vi_range', 'sched', 'dec', 'big', 'wr']
     rule = ('boundaries +-2 of every width, powers of 128 +-2, first invalid values, all continuation-bit patterns of '
             'up to five bytes with extreme payload bits (standalone reader and poll header machine, both families), '
             'random values, and hashed ranges (quick: windows around each boundary + random windows; thorough: all 2^28 '
@@ -173,6 +173,19 @@ class C15(Base):
                         self.zero[c] = 1 + len(sp)
                         cs.append(c)
                         hist(dist, 'zero-length-spellings')
+        # the var-int writer towards a caller-supplied sink: Interrupted is retried, a full sink is an error, whichever byte
+        # of the integer it hits (v5 SUBSCRIBE body: pid, property length, 0x0B, Subscription Identifier)
+        self.sinkw = {}
+        for v in (0, 127, 128, 300, 16383, 16384, 2097151, 2097152, 268435455):
+            p = ('subscribe', 7, ({11: v}, []), [(b'a', 1, 0, 0, 0)])
+            b = pk.encode('v5', p)
+            body = b[frame_info(b)[0]:]
+            for j in range(0, 9):
+                for step in ('f3', 'z'):
+                    c = 'wr v5 stream %s %s' % (pk.tok('v5', p), '.'.join(['a1'] * j + [step]))
+                    self.sinkw[c] = (body, j, step)
+                    cs.append(c)
+                    hist(dist, 'var-int-writer-sink')
         # the encoder side of "values of 268,435,456 and above are rejected": packets around the limit (shape only)
         for fam in ('v3', 'v5'):
             extra = 0 if fam == 'v3' else 1
@@ -242,6 +255,20 @@ class C15(Base):
                 want = str(n - 1 - r)
             if line != want:
                 return '%s(%d) = %s, the law gives %s' % (op, n, line, want)
+        elif op == 'wr':
+            m = self.sinkw.get(case)
+            if m is not None:
+                body, j, step = m
+                f = fields(line)
+                w = bytes.fromhex(f.get('written', 'x')[1:])
+                if step == 'f3':
+                    if f.get('res') != 'ok' or w != body:
+                        return ('body encoder into a sink that reports Interrupted once after %d bytes: %s, wrote %d of %d bytes '
+                                '(write_all retries Interrupted)' % (j, f.get('res'), len(w), len(body)))
+                elif j < len(body):
+                    if f.get('res') != 'err IoError WriteZero' or w != body[:j]:
+                        return ('body encoder into a sink that is full after %d bytes: %s, wrote %d bytes; expected WriteZero after '
+                                'the first %d bytes' % (j, f.get('res'), len(w), j))
         elif op == 'big':
             fam, tl, q, pl = t[1], int(t[3]), int(t[4]), int(t[5])
             rl = 2 + tl + (2 if q else 0) + pl + (1 if fam == 'v5' else 0)
@@ -311,7 +338,7 @@ class C15(Base):
             return len(t[1]) > 3
         if t[0] == 'vi_poll':
             return len(t[2]) > 3
-        if t[0] in ('sched', 'dec', 'big'):
+        if t[0] in ('sched', 'dec', 'big', 'wr'):
             return True
         return int(t[1]) >= 128
 
@@ -322,6 +349,23 @@ def driver_run(lines, workdir, tag):
     if not lines:
         return []
     return lib.run_sharded('driver', 'release', lines, workdir, tag)
+
+
+def same_packet_spellings(items, tag):
+    """items: (fam, p, spelled_bytes). Keeps those the strict reference parser reads as exactly packet p — gen/frames.py also
+    produces re-spellings that denote another packet (permuted user properties), none (a payload no longer matching its
+    format indicator), or use non-minimal variable byte integers inside the body (pinned leniency L-class / known finding
+    KF2: the blocking decoders then frame by the canonical length)."""
+    if not items:
+        return []
+    import shutil
+    wd = os.path.join(lib.WORK, 'gen-' + tag)
+    os.makedirs(wd, exist_ok=True)
+    lib.ensure_driver()
+    out = driver_run(['specparse %s %s' % (fam, pk.hx(sb)) for fam, p, sb in items], wd, 'spell')
+    keep = [it for it, o in zip(items, out) if lib.normalize(o) == 'ok ' + pk.tok(it[0], it[1])]
+    shutil.rmtree(wd, ignore_errors=True)
+    return keep
 
 
 def utf8_ok(b):
@@ -354,6 +398,10 @@ def string_pool(rng, tier, valid_utf8_only=True):
     n_ex = 4 if tier == 'quick' else 6
     pool = list(strs.with_prefixes(strs.exhaustive(n_ex)))
     pool += list(strs.with_prefixes(strs.sampled(rng, 3000 if tier == 'quick' else 60000, 9)))
+    pool += list(strs.with_prefixes(strs.exhaustive(2 if tier == 'quick' else 3, strs.WIDE)))
+    pool += list(strs.with_prefixes(strs.sampled(rng, 600 if tier == 'quick' else 20000, 7, strs.ALPHA + strs.WIDE)))
+    # shared filters with more than 256 levels
+    pool += [b'$share/g/' + b'a/' * 300 + b'#', b'$share/g' + b'/' * 300, b'$share/' + b'/'.join([b'x'] * 300), b'/' * 300]
     pool += strs.long_strings(rng)
     pool += strs.UTF8_EDGE + [b'a/' + e for e in strs.UTF8_EDGE] + [b'$share/' + e + b'/x' for e in strs.UTF8_EDGE]
     g = pk.Gen(rng)
@@ -396,6 +444,7 @@ class C18(Base):
             ]
             if len(s) < 65000:
                 frames += [('v5', 'name', ('publish', 0, 0, 0, 0, s, ({35: 7}, [(b'k', b'v')]), b'pl')),
+                           ('v5', 'name', ('publish', 0, 0, 0, 0, s, ({35: 0}, []), b'pl')),
                            ('v5', 'resp', ('publish', 0, 0, 0, 0, b't', ({8: s}, []), b'pl')),
                            ('v5', 'resp', ('connect', 5, 1, 10, ({}, []), b'c', (0, 0, ({8: s}, []), b'w', b'm'), None, None))]
             for fam, where, p in frames:
@@ -434,6 +483,8 @@ class C18(Base):
             if ok:
                 if f.get('deref') != '1' or f.get('str') != '1':
                     return 'accepted name does not read back as the original string'
+                if f.get('cf') not in ('1', None):
+                    return 'a TopicName overwritten in place (clone_from) with this name does not read back as this name: cf=%s' % f.get('cf')
                 if f.get('shared') != ('1' if s.startswith(b'$share/') else '0'):
                     return 'is_shared wrong'
                 if f.get('sys') != ('1' if s.startswith(b'$SYS/') else '0'):
@@ -518,10 +569,15 @@ class C16(Base):
         # valid filters at the very top of the length range (the per-entry length arithmetic must not wrap)
         longs += [b'a/' * 32765 + b'abc'[:k] for k in (1, 2, 3)] + [b'x' * n for n in (65532, 65533, 65534, 65535)]
         for s in sub[::step] + longs:
+            # (every option combination; the same filter twice in one packet: neither changes whether the filter is acceptable)
             frames = [('v3', ('subscribe', 3, [(b'ok/#', 1), (s, 2)])),
-                      ('v5', ('subscribe', 3, ({}, []), [(s, 1, 0, 1, 0)])),
-                      ('v3', ('unsubscribe', 4, [s, b'x'])),
+                      ('v5', ('subscribe', 3, ({}, []), [(s, rng.randint(0, 2), rng.randint(0, 1), rng.randint(0, 1), rng.randint(0, 2))])),
+                      ('v3', ('unsubscribe', 4, [s, b'x', s] if len(s) < 30000 else [s, b'x'])),
                       ('v5', ('unsubscribe', 4, ({}, [(b'k', b'v')]), [b'y', s]))]
+            if len(s) < 200 and rng.random() < 0.3:
+                frames += [('v5', ('subscribe', 3, ({}, []), [(s, 0, 1, 0, 0), (s, 2, 1, 1, 2)])),
+                           ('v3', ('subscribe', 3, [(s, 0), (s, 0)])),
+                           ('v5', ('unsubscribe', 4, ({}, []), [s, s]))]
             for fam, p in frames:
                 c = 'dec %s %s' % (fam, pk.hx(pk.encode(fam, p)))
                 self.meta[c] = s
@@ -628,8 +684,12 @@ class C17(Base):
                 want = dict(shared='1', group=pk.hx(name), filter=pk.hx(flt), info=pk.hx(name) + ',' + pk.hx(flt))
             else:
                 want = dict(shared='0', group='-', filter='-', info='-')
+            want['d3'] = want['d5'] = '1%s,%s,%s' % (want['shared'], want['group'], want['filter'])
             for k, v in want.items():
                 if f.get(k) != v:
+                    if k in ('d3', 'd5'):
+                        return ('the filter %s decoded from a %s (same text?, is_shared, group, filter): %s, the unique split gives %s'
+                                % (t[1][:80], 'v3 SUBSCRIBE' if k == 'd3' else 'v5 UNSUBSCRIBE', f.get(k), v))
                     return 'accessor %s on %s: %s, the unique split gives %s' % (k, t[1][:80], f.get(k), v)
             if f.get('sys') != ('1' if s.startswith(b'$SYS/') else '0'):
                 return 'is_sys wrong'
@@ -768,7 +828,7 @@ class C01(Base):
 @register
 class C02(Base):
     id = 'C02'
-    ops = ['enc', 'big', 'kf1', 'wr']
+    ops = ['enc', 'big', 'kf1', 'wr', 'kf3']
     cross_profile = True
     rule = ('the C01 packet pool through Packet::encode, Packet::encode_len, every body and every separately encodable '
             'part (protocol, will, each property set), in both build profiles (outputs must be identical); shape-only '
@@ -801,6 +861,10 @@ class C02(Base):
                     hist(dist, 'big')
         cs.append('kf1 2100')
         cs.append('kf1 2047')
+        # bodies beyond 2^32 bytes (a length carried in 32 bits somewhere would wrap below the limit)
+        for n in (1, 2, 200, 4096, 4097, 65535, 65536, 70000):
+            cs.append('kf3 %d' % n)
+            hist(dist, 'kf3')
         return cs, dist
 
     def judge(self, case, line, spec, ctx, i):
@@ -822,9 +886,12 @@ class C02(Base):
             if n >= 268435456 and not f.get('len', '').startswith('err'):
                 return 'oversize property section: encode_len = %s' % f.get('len')
             return None
-        if t[0] == 'big':
-            fam, tl, q, pl = t[1], int(t[3]), int(t[4]), int(t[5])
-            rl = 2 + tl + (2 if q else 0) + pl + (1 if fam == 'v5' else 0)
+        if t[0] in ('big', 'kf3'):
+            if t[0] == 'kf3':
+                rl = 2 + int(t[1]) * 65538
+            else:
+                fam, tl, q, pl = t[1], int(t[3]), int(t[4]), int(t[5])
+                rl = 2 + tl + (2 if q else 0) + pl + (1 if fam == 'v5' else 0)
             f = fields(line)
             if rl >= 268435456:
                 if f.get('len') != 'err InvalidVarByteInt' or f.get('enc') != 'err InvalidVarByteInt':
@@ -872,7 +939,6 @@ class C02(Base):
 class C10(Base):
     id = 'C10'
     ops = ['enc', 'code', 'wr']
-    profiles = ('release',)
     rule = ('the C01 packet pool (every enum variant written as a wire number, every property) encoded by the implementation; '
             'the judge feeds the implementation\'s bytes to the extracted reference parser Spec.parse (independent tables, '
             'slicing structure) and compares the recovered packet with the original. Non-trivial: packet with a body.')
@@ -951,7 +1017,7 @@ def accept_scripts(rng, n):
 @register
 class C09(Base):
     id = 'C09'
-    ops = ['enc', 'wr']
+    ops = ['enc', 'wr', 'big']
     rule = ('a sample of the C01 packet pool: Packet::encode twice (repeated invocation), the VarBytes container, '
             'encode_async and the streaming body encoder into scripted sinks accepting 1, 2, 3, 7, n-1, n, n+5 or random '
             'bytes per write with Pending before any write (async).  Non-trivial: a sink script with >= 2 steps.')
@@ -960,6 +1026,7 @@ class C09(Base):
         cs = self.corpus()
         ps, dist = both_pools(rng, tier, n_random=25 if tier == 'quick' else 400)
         self.pkts = {}
+        prev = None
         for fam, p in ps:
             tok = pk.tok(fam, p)
             n = len(pk.encode(fam, p))
@@ -973,6 +1040,23 @@ class C09(Base):
                 if 'p' not in sc.split('.') and p[0] not in ('pingreq', 'pingresp') and not (
                         fam == 'v3' and p[0] in ('connack', 'puback', 'pubrec', 'pubrel', 'pubcomp', 'unsuback', 'disconnect')):
                     cs.append('wr %s stream %s %s' % (fam, tok, sc))
+            # an encode that failed half-way (sink error after j bytes) must leave nothing behind: the next encodes of the
+            # same and of another packet are still the encoding
+            if n < 400 and p[0] not in ('pingreq', 'pingresp') and rng.random() < 0.12:
+                for j in rng.sample(range(0, min(n, 24)), min(n, 4)):
+                    sc = '.'.join(['a1'] * j + ['f5'])
+                    if not (fam == 'v3' and p[0] in ('connack', 'puback', 'pubrec', 'pubrel', 'pubcomp', 'unsuback', 'disconnect')):
+                        cs.append('wr %s stream %s %s' % (fam, tok, sc))
+                    cs.append('wr %s async %s %s' % (fam, tok, sc))
+                    cs.append('enc %s %s' % (fam, tok))
+                    if prev is not None and prev[0] == fam:
+                        cs.append('enc %s %s' % prev)
+                    hist(dist, 'after-failed-encode')
+            prev = (fam, tok)
+        # near the top of the size range the entry points must still agree (shape only)
+        for fam in ('v3', 'v5'):
+            for rl in (268435450, 268435451, 268435455):
+                cs.append('big %s publish 3 0 %d' % (fam, rl - 5 - (1 if fam == 'v5' else 0)))
         return cs, dist
 
     def context(self, cases, act):
@@ -985,6 +1069,12 @@ class C09(Base):
 
     def judge(self, case, line, spec, ctx, i):
         t = case.split(' ', 2)
+        if t[0] == 'big':
+            f = fields(line)
+            if f.get('len') != f.get('enc') or not f.get('len', '').startswith('ok '):
+                return ('a valid PUBLISH just below the size limit: encode_len = %s, encode = %s (the streaming body encoder '
+                        'has no such limit)' % (f.get('len'), f.get('enc')))
+            return None
         if t[0] == 'enc':
             f = fields(line)
             b = enc_bytes(f)
@@ -995,6 +1085,9 @@ class C09(Base):
                 return 'VarBytes::%s exposes %d bytes' % (vb, len(b))
             if f.get('async') != 'ok ' + pk.hx(b):
                 return 'encode_async emits different bytes than encode'
+            if f.get('vbcf') not in ('1', None):
+                return ('the VarBytes container overwritten in place (clone_from) from the encoding exposes different bytes than '
+                        'the encoding')
             if len(set(ctx[(t[1], t[2])])) != 1:
                 return 'repeated invocations of encode differ'
             hl = frame_info(b)[0]
@@ -1010,6 +1103,8 @@ class C09(Base):
         rf = fields(ref[0])
         b = enc_bytes(rf)
         f = fields(line)
+        if any(st[:1] in ('f', 'z') for st in script.split('.')):
+            return None          # a failing sink: only there to leave a failed encode behind (C14 judges the failure itself)
         if entry == 'async':
             want = pk.hx(b)
         else:
@@ -1207,7 +1302,9 @@ def judge_pend_sched(owner, case, line, ctx):
 NASTY_FILTERS = [b'#/#', b'a/#/#', b'+/#/#', b'#/a/#', b'$share/g/#/#', b'##', b'a#', b'#a', b'a/#/b', b'++', b'a+', b'+a', b'a/+b',
                  b'a/b+/c', b'$share//a', b'$share/g', b'$share/g/', b'$share/g+/a', b'$share/g#/a', b'', b'a\x00b',
                  '$share/\u00e9/'.encode(), '$share/\u4f60\u597d/'.encode(), '$share/\u00e9/a'.encode(), b'$SHARE/+/x', b'$Share/a',
-                 b'a\tb', b'\x7f', '\u0085/#'.encode(), b'$share/$share/x', b'$share/$share/#', b'#', b'+', b'/', b'//', b'+/+/#']
+                 b'a\tb', b'\x7f', '\u0085/#'.encode(), b'$share/$share/x', b'$share/$share/#', b'#', b'+', b'/', b'//', b'+/+/#',
+                 b'$share/a\x00b/t', b'$share/\x00/t', b'sensor/+', b'sensor/#', b'building/floor/+', b'abcdefg+', b'0123456789abcde#',
+                 b'1234567\x00', '\ufeffa/b'.encode(), '\ufeff$share/g/t'.encode(), 'a\u012b'.encode(), '+\u012f'.encode()]
 
 
 def chunked_async_cases(owner, cs, dist, frames, rng, n, maxlen=400):
@@ -1337,6 +1434,7 @@ class C12(DecBase):
                         hist(dist, 'bad-utf8-single-field')
         # filters of every shape (valid and not) inside SUBSCRIBE / UNSUBSCRIBE: whatever comes back must hold valid filters
         self.filters = {}
+        self.names = {}
         nasty = NASTY_FILTERS
         _unused = [b'#/#', b'a/#/#', b'+/#/#', b'#/a/#', b'$share/g/#/#', b'##', b'a#', b'#a', b'a/#/b', b'++', b'a+', b'+a', b'a/+b',
                  b'a/b+/c', b'$share//a', b'$share/g', b'$share/g/', b'$share/g+/a', b'$share/g#/a', b'', b'a\x00b',
@@ -1345,10 +1443,19 @@ class C12(DecBase):
         sp = [x for x in string_pool(rng, tier) if len(x) < 40 and utf8_ok(x)]
         for flt in nasty + rng.sample(sp, min(len(sp), 1500 if tier == 'quick' else 30000)):
             for fam, p in (('v3', ('subscribe', 5, [(b'ok/+', 0), (flt, 1)])), ('v3', ('unsubscribe', 5, [flt])),
-                           ('v5', ('subscribe', 5, ({}, []), [(flt, 1, 0, 0, 0)])), ('v5', ('unsubscribe', 5, ({}, []), [b'a', flt]))):
+                           ('v5', ('subscribe', 5, ({}, []), [(flt, 1, 0, 0, 0)])), ('v5', ('unsubscribe', 5, ({}, []), [b'a', flt])),
+                           ('v3', ('publish', 0, 0, 0, 0, flt, b'p')), ('v5', ('publish', 0, 0, 1, 4, flt, ({}, []), b'p')),
+                           ('v3', ('connect', 4, 1, 10, b'c', (1, 0, flt, b'm'), None, None)),
+                           ('v5', ('connect', 5, 1, 10, ({}, []), b'c', (0, 0, ({8: flt}, []), flt, b'm'), None, None))):
                 if rng.random() < 0.5 and flt not in nasty:
                     continue
                 c = 'dec %s %s' % (fam, pk.hx(pk.encode(fam, p)))
+                if p[0] in ('publish', 'connect'):
+                    self.names[c] = flt
+                    self.exact.add(c)
+                    cs.append(c)
+                    hist(dist, 'name-shapes')
+                    continue
                 self.filters[c] = flt
                 self.exact.add(c)
                 cs.append(c)
@@ -1367,6 +1474,12 @@ class C12(DecBase):
         f = fields(line)
         if case.startswith('stream '):
             return judge_chunked_async(self, case, line, ctx)
+        nm = self.names.get(case)
+        if nm is not None and not C18.name_ok(nm):
+            for fe in ('block', 'async', 'poll'):
+                if f.get(fe, '').startswith('ok '):
+                    return ('%s decoder returns a packet holding the topic name %s, which MQTT 4.7 does not allow in a topic name'
+                            % (fe, pk.hx(nm)))
         flt = self.filters.get(case)
         if flt is not None and not (filter_rule(flt) or (False,))[0]:
             for fe in ('block', 'async', 'poll'):
@@ -1560,6 +1673,13 @@ class C06(DecBase):
             if f.get('block') != f.get('async'):
                 return ('bare fixed header: Header::decode returns %s, Header::decode_async %s'
                         % (f.get('block', '')[:80], f.get('async', '')[:80]))
+            hb = bytes.fromhex(case.split()[2][1:])
+            fi = frame_info(hb)
+            if fi is not None:
+                # a complete fixed header: both must say what the flag table of MQTT 2.2 says (the same table C04 uses)
+                want = props2.C04.hdr_rule(case.split()[1], hb[0], fi[1])
+                if f.get('block') != want:
+                    return 'bare fixed header %s: both decoders return %s, MQTT 2.2 gives %s' % (pk.hx(hb[:fi[0]]), f.get('block', '')[:80], want)
             return None
         if case.startswith('sched '):
             ref = ctx.get(self.chunked.get(case, ''))
